@@ -17,6 +17,7 @@ import (
 	"hash/fnv"
 	"os"
 	"path/filepath"
+	"runtime"
 	"sort"
 	"strings"
 	"sync"
@@ -395,6 +396,22 @@ func WaitQuiescent() {
 	case <-ch:
 	case <-time.After(300 * time.Millisecond):
 	}
+}
+
+// AllocMark / AllocOK: natively, the bytes allocated since the mark must not
+// exceed limit (runtime.MemStats.TotalAlloc). In the engine every make() with a
+// symbolic size is checked against the max_alloc bound where it happens, under
+// the same assertion label; AllocOK is then constantly true.
+func AllocMark() uint64 {
+	var ms runtime.MemStats
+	runtime.ReadMemStats(&ms)
+	return ms.TotalAlloc
+}
+
+func AllocOK(mark uint64, limit uint64) bool {
+	var ms runtime.MemStats
+	runtime.ReadMemStats(&ms)
+	return ms.TotalAlloc-mark <= limit
 }
 
 // CrashTaps returns the number of crash points seen so far (engine only).
